@@ -81,6 +81,15 @@ func c11States(start int, events []int) []c11State {
 	return st
 }
 
+// c11Off is the offset of segment msn inside the one big resource. Style "rangemix": 188 unrelated bytes sit in front
+// of every even segment, even segments carry their (non-contiguous) offset and odd ones none.
+func c11Off(style string, msn int) int {
+	if style == "rangemix" {
+		return msn*c11SegBytes + 188*(msn/2+1)
+	}
+	return msn * c11SegBytes
+}
+
 func c11SegURI(style string, msn int, audio bool) (uri string, byteRange string) {
 	name := fmt.Sprintf("seg%d.ts", msn)
 	if audio {
@@ -104,6 +113,15 @@ func c11SegURI(style string, msn int, audio bool) (uri string, byteRange string)
 			f = "allaud.ts"
 		}
 		return f, fmt.Sprintf("%d", c11SegBytes)
+	case "rangemix":
+		f := "all.ts"
+		if audio {
+			f = "allaud.ts"
+		}
+		if msn%2 == 0 {
+			return f, fmt.Sprintf("%d@%d", c11SegBytes, c11Off(style, msn))
+		}
+		return f, fmt.Sprintf("%d", c11SegBytes)
 	}
 	return name, ""
 }
@@ -113,8 +131,8 @@ func c11Playlist(cs c11Case, st c11State, audio bool) string {
 	for i := 0; i < cs.Window; i++ {
 		msn := st.mseq + i
 		uri, br := c11SegURI(cs.Style, msn, audio)
-		if cs.Style == "range0" && i == 0 {
-			br = fmt.Sprintf("%d@%d", c11SegBytes, msn*c11SegBytes)
+		if (cs.Style == "range0" || cs.Style == "rangemix") && i == 0 {
+			br = fmt.Sprintf("%d@%d", c11SegBytes, c11Off(cs.Style, msn))
 		}
 		segs = append(segs, plSeg{URI: uri, DurNS: 1_000_000_000, ByteRange: br})
 	}
@@ -136,8 +154,8 @@ func c11Expect(cs c11Case, states []c11State, audio bool, base string) (reqs []s
 		return base + uri
 	}
 	rangeOf := func(msn int) string {
-		if cs.Style == "range" || cs.Style == "range0" {
-			return fmt.Sprintf(" bytes=%d-%d", msn*c11SegBytes, (msn+1)*c11SegBytes-1)
+		if cs.Style == "range" || cs.Style == "range0" || cs.Style == "rangemix" {
+			return fmt.Sprintf(" bytes=%d-%d", c11Off(cs.Style, msn), c11Off(cs.Style, msn)+c11SegBytes-1)
 		}
 		return ""
 	}
@@ -234,6 +252,9 @@ func c11RunCase(c *vh.Ctx, cs c11Case) (sig, msg, outcome string) {
 			var all []byte
 			hi := cs.Start + 40
 			for m := 0; m < hi; m++ {
+				for len(all) < c11Off(cs.Style, m) {
+					all = append(all, 0xEE)
+				}
 				all = append(all, c11Segment(m, audio)...)
 			}
 			return srvResp{Status: 200, Body: all}
@@ -375,7 +396,7 @@ func c11Groups(tier string) []c11Group {
 	var out []c11Group
 	for _, w := range []int{1, 2, 3, 4, 6, 10} {
 		for _, typ := range []string{"", "EVENT", "VOD"} {
-			for _, style := range []string{"rel", "abs", "query", "range", "range0"} {
+			for _, style := range []string{"rel", "abs", "query", "range", "range0", "rangemix"} {
 				if tier != "thorough" && style != "rel" && !(w == 4 || w == 6) {
 					continue
 				}
